@@ -196,6 +196,12 @@ def size_shapes(rnd):
     out.append(("tuple-depth-3", _ifelse(R, Cmp(Id("T"), "not in", nested))))
     out.append(("tuple-idents", _ifelse(R, Cmp(Id("f1"), "in", Tup((Id("f2"), Id("f3"), Lit(1, "1"), Tup((Id("f4"),))))))))
     out.append(("one-tuple-both-sides", 'def ot { if (f1) == (f2) { return "T_0" weighted 1 } else { return "F_0" weighted 1 } }'))
+    # the same group list returned from several branches at different depths (deeper later, deeper first, siblings)
+    same = '"x" weighted 1, "y" weighted 2'
+    out.append(("repeated-return-deeper-later", f'def rr {{ splitters: u if f1 == 1 {{ return {same} }} else {{ if f2 == 1 {{ if f3 == 1 {{ return {same} }} }} else {{ return {same} }} }} }}'))
+    out.append(("repeated-return-deeper-first", f'def rr {{ splitters: u if f1 == 1 {{ if f2 == 1 {{ if f3 == 1 {{ return {same} }} else {{ return {same} }} }} }} else if f2 == 2 {{ return {same} }} else {{ return {same} }} }}'))
+    out.append(("repeated-return-siblings", f'def rr {{ if f1 == 1 {{ return {same} }} else if f1 == 2 {{ return {same} }} else {{ return {same} }} }}'))
+    out.append(("repeated-return-single", 'def rr { if f1 == 1 { return "only" weighted 1 } else { if f2 == 1 { return "only" weighted 1 } } }'))
     # many splitters, duplicates in the splitter list
     out.append(("splitters-10", 'def sp { splitters: a, b, c, d, e, f, g, h, i, j return "x" weighted 1, "y" weighted 1 }'))
     out.append(("splitter-repeated", 'def sp { splitters: a, a return "x" weighted 1, "y" weighted 1 }'))
@@ -267,6 +273,7 @@ def run(ctx):
         Profile(max_depth=2, max_arms=6, pred_depth=3, p_shared=0.8, splitters=(1, 4)),
         Profile(max_depth=3, max_arms=3, pred_depth=2, splitters=(0, 0)),
         Profile(max_depth=6, max_arms=2, pred_depth=2, p_leaf_cond=0.3, max_groups=16),
+        Profile(max_depth=4, max_arms=3, pred_depth=1, p_leaf_cond=0.3, p_repeat_return=0.5),
     ]
     for i in range(n):
         g = ProgGen(rnd, rnd.choice(profiles))
